@@ -1,6 +1,7 @@
 CONSTANTS
   Keys = @KEYS@
   Vals = @VALS@
+  VKeys = @VKEYS@
   LeafH = @LEAFH@
 INIT Init
 NEXT Next
